@@ -92,7 +92,7 @@ func ListZ(v []int64) string {
 	}
 	return List(it)
 }
-func Pair(a, b string) string  { return "(" + a + ", " + b + ")" }
+func Pair(a, b string) string { return "(" + a + ", " + b + ")" }
 func App(f string, args ...string) string {
 	return "(" + f + " " + strings.Join(args, " ") + ")"
 }
